@@ -41,7 +41,7 @@ N = {"quick": 160000, "thorough": 2400000}
 TIME_LIMIT = {"quick": 40, "thorough": 560}
 SHARDS = 16
 REACH = {
-    "quick": {"branch_rule_checked": 8000, "hinted_writes": 300, "wrong_name_hints": 100, "wide_union_cases": 25, "combined_option_reads": 2000,
+    "quick": {"branch_rule_checked": 8000, "hinted_writes": 300, "wrong_name_hints": 100, "wide_union_cases": 25, "combined_option_reads": 2000, "block_reader_tag_reads": 500,
               "record_ties": 100, "float_double_deferral": 50, "closure_roundtrips": 4000,
               "closure_named_record": 100, "closure_named_enum": 100, "closure_named_fixed": 100,
               "determinism_cross_process": 500, "tags_checked": 1000},
@@ -420,6 +420,19 @@ def one_case(sh, fa, rng, case, dtn, det_log):
             sh.count("closure_other_modes_ok")
         else:
             sh.count("closure_other_modes_not_reproduced")  # allowed (A15): untagged records re-resolve
+    # the same reporting through the block reader (its own option plumbing)
+    if rng.random() < 0.2 and not has_logical:
+        from ..ref import container as RKc
+
+        blob, _b = RKc.write(js, [data, data], [1, 1])
+        for mode, kw in (("named", {"return_named_type": True}), ("named_override", {"return_named_type": True, "return_named_type_override": True})):
+            st, vv = guard(lambda: [r for blk in fa.block_reader(io.BytesIO(blob), **kw) for r in blk])
+            want_b = expected_tagged(node, tree, mode, None)
+            if st == "exc" or len(vv) != 2 or not all(RC.same(x, want_b) for x in vv):
+                sh.violation("named-branch-not-tagged" if mode == "named" else "override-tagging-wrong",
+                             "block_reader(%s) gave %s, expected %s" % (sorted(kw), exc_name(vv) if st == "exc" else printable(vv[:1], 250), printable(want_b, 250)), dict(info, api="block_reader", options=kw))
+                return
+        sh.count("block_reader_tag_reads")
     # both option families at once: named-type reporting decides, the record-name options add nothing
     if not has_logical:
         rec_kw = rng.choice([{"return_record_name": True}, {"return_record_name_override": True},
